@@ -51,5 +51,13 @@ unsigned h_call_dequeues (int fiber);
 /* results of threads, for outcome strings */
 extern int h_res[H_MAXT][H_MAXOPS];
 void h_outcome_results (void);
+/* End-state rule for a mutex that nobody holds and nobody waits for (every thread has finished): the bits
+   MU_DESIG_WAKER, MU_WRITER_WAITING and MU_LONG_WAIT must be clear.  Each of them, left set on an idle
+   mutex, makes the next contended operation lose a wake-up by construction (unlock wakes nobody while
+   MU_DESIG_WAKER is set; a reader / any locker cannot acquire and queues behind nobody while
+   MU_WRITER_WAITING / MU_LONG_WAIT is set), which is the C02 violation; lock bits and the spinlock must be
+   clear as well.  MU_WAITING, MU_CONDITION and MU_ALL_FALSE are recomputed by the next queueing thread and
+   are not judged.  */
+void h_mu_idle (nsync_mu *m);
 
 #endif
